@@ -32,6 +32,8 @@ func init() {
 			{ID: "C04.11", Desc: "tables of header field names are keyed by canonical names", Run: func(c *Ctx) { ruleHeaderTablesCanonical(c, "C04.11") }, MinSites: 1},
 			{ID: "C04.12", Desc: "the 304 merge replaces the stored Vary (only framing fields are kept back), so that the freshened response is filed under what it now varies on", Run: func(c *Ctx) { ruleMergeFilter(c, "C04.12") }, MinSites: 1},
 			{ID: "C04.13", Desc: "the matcher's position refers to the caller's list", Run: func(c *Ctx) { ruleMatcherIndexesCallersSlice(c, "C04.13") }, MinSites: 1},
+			{ID: "C04.14", Desc: "nominated field names are canonicalised on the store side as on the match side", Run: func(c *Ctx) { ruleVaryNamesCanonical(c, "C04.14") }, MinSites: 1},
+			{ID: "C04.15", Desc: "the background revalidation works on a deep copy of the caller's request (its header map included)", Run: func(c *Ctx) { ruleC20_6(c); renameRule(c, "C20.6", "C04.15") }, MinSites: 1},
 		},
 	})
 }
